@@ -236,6 +236,10 @@ def convert_bool_bit(
     elif isinstance(expr, Cast):
         return Cast(convert_bool_bit(expr.val, "bit"), expr.target_type, strict=expr.strict)
 
+    else:
+        # nothing to convert (`eval_aligned` is refused when the expression is compiled)
+        return_type = "bit"
+
     if types.without_const(expr.dtype()) == Bool():
         if desired_return_type == "bool" and return_type == "bit":
             return ColFn(ops.equal, result, LiteralCol(True))
